@@ -196,6 +196,7 @@ type Conn struct {
 	pendingACKs    []protocol.RecordNumber
 	decrypted      chan any // Decrypted Application Data or error, pull by calling `Read`
 	rAddr          net.Addr
+	sessionAddr    string           // the address this connection was created for: names the client's session, whatever rAddr becomes
 	state          dtlsstate.Active // active DTLS version state
 
 	maximumTransmissionUnit int
@@ -266,8 +267,14 @@ func newConn(
 	handshakeConfig *dtlsconfig.HandshakeConfig,
 	isClient bool,
 ) *Conn {
+	sessionAddr := ""
+	if rAddr != nil {
+		sessionAddr = rAddr.String()
+	}
+
 	return &Conn{
 		rAddr:                   rAddr,
+		sessionAddr:             sessionAddr,
 		nextConn:                netctx.NewPacketConn(nextConn),
 		handshakeConfig:         handshakeConfig,
 		fragmentBuffer:          dtlsfragmentbuffer.New(),
@@ -2993,7 +3000,7 @@ func (c *Conn) sessionKey() []byte {
 		// As ServerName can be like 0.example.com, it's better to add
 		// delimiter character which is not allowed to be in
 		// neither address or domain name.
-		return []byte(c.rAddr.String() + "_" + c.handshakeConfig.ServerName)
+		return []byte(c.sessionAddr + "_" + c.handshakeConfig.ServerName)
 	}
 
 	return common.SessionID
